@@ -15,7 +15,7 @@ import re
 from fractions import Fraction
 from typing import Any, Dict, List, Optional
 
-from .astx import NoValue, un, _BIN, _CMP
+from .astx import NoValue, un, _BIN, _CMP, identity, ValueIdentity
 from .optree import T
 from .surface import BINOP_DUNDER, UNOP_DUNDER, BINARY_DUNDERS, Entry
 
@@ -1021,10 +1021,20 @@ class Interp:
                 self.call_function(post, [o], {}, {}, qual.split(".")[0])
         return o
 
+    def _import_origin(self, mod, local_name):
+        """The imported name behind a local alias of a module (`from typing import NamedTuple as _NT` -> 'NamedTuple')."""
+        for st in mod.tree.body:
+            if isinstance(st, ast.ImportFrom):
+                for al in st.names:
+                    if (al.asname or al.name) == local_name:
+                        return al.name
+        return local_name
+
     def _namedtuple_fields(self, name):
         for mname, mod in self.repo.modules.items():
             for st in mod.tree.body:
-                if isinstance(st, ast.ClassDef) and st.name == name and any(un(b) in ("NamedTuple", "typing.NamedTuple") for b in st.bases):
+                if isinstance(st, ast.ClassDef) and st.name == name and any(
+                        self._import_origin(mod, un(b).split(".")[-1]) == "NamedTuple" for b in st.bases):
                     return [x.target.id for x in st.body if isinstance(x, ast.AnnAssign) and isinstance(x.target, ast.Name)]
         return None
 
@@ -1150,7 +1160,7 @@ class Interp:
             if f.name == "bool" and len(args) == 1 and not kwargs:
                 return self.truth(args[0], node)
             if f.name == "str" and len(args) == 1 and not kwargs:
-                txt = _fmt(args[0])
+                txt = self.format_value(args[0], "", 115)       # str(x) is format through __str__ / __repr__
                 return txt if txt is not None else Unk("str")
             if f.name in PY_TYPES and _concrete(args) and _concrete(kwargs):
                 try:
@@ -1592,6 +1602,8 @@ class Interp:
                     # a generic operand: an opaque scalar expression is not identically equal to a number
                     return isinstance(op, ast.NotEq)
             return Unk("compare")
+        if isinstance(op, (ast.Is, ast.IsNot)):
+            return identity(op, a, b, node)
         try:
             return _CMP[type(op)](a, b)
         except TypeError:
